@@ -5,6 +5,9 @@ HERE = os.path.dirname(os.path.dirname(os.path.abspath(__file__)))
 PY = "/venv/bin/python -B"
 CHECKS = {
  # id: (category, technique, level text, note, design ref)
+ "C07": ("exploration", "differential runtime monitor: library codecs vs independent reference codec",
+         "Every exported elementary/string/bit-string type is compared with an independent reference codec: exhaustively for all 1- and 2-byte patterns and values, on boundary/walking-bit/special-float/random patterns for wider types, across string prefix widths and FixedSizeString capacities 1..500, and on thousands of generated Array/Struct/StructTag layouts; the type-code table is checked for code and width.",
+         "Trusts vlib/refcodec.py (self-tested on the documentation's vectors) and Python's struct/int.to_bytes.", "4 C07"),
  "C19": ("exploration", "exhaustive runtime enumeration of every lookup against the class bodies",
          "Every EnumMap table found by walking the package is exercised exhaustively (all members x 9 casing classes, all codes, status 0..255, all extended pairs) against an oracle derived from the class bodies; the quantifier is finite, so the run is complete (exhaustive: true).",
          "Oracle reads members from vars(cls); trusts Python dict/str semantics.", "4 C19"),
